@@ -130,8 +130,54 @@ def nested_case(draw, tier):
     return {"kind": "nested", "start": start, "end": start + horizon, "F": F, "script": script, "flags": sorted(flags)}
 
 
+@st.composite
+def tsl_case(draw, tier):
+    """map_ over a list: fixed size (one instance per index from the start) or dynamic (grow-only; an index appears when the
+    list grows past it, also as a hole that is never written) - runtime/tsl_map_node.cpp"""
+    big = tier == "thorough"
+    start = draw(st.sampled_from([0, 0, 3]))
+    horizon = draw(st.integers(5, 30 if big else 16))
+    end = start + horizon
+    use_key = draw(st.booleans())
+    use_b = draw(st.booleans())
+    names, params = [], []
+    if use_key:
+        names.append("ndx"); params.append("TS[int]")
+    names.append("x"); params.append("TS[int]")
+    if use_b:
+        names.append("bb"); params.append("TS[int]")
+    refs = [{"arg": i} for i in range(len(params))]
+    body, ret, flags = draw(fn_body(refs, horizon))
+    xref = {"arg": names.index("x")}
+    if xref not in body[0]["ins"]:
+        body[0]["ins"] = [xref] + body[0]["ins"][:1]
+        body[0]["coef"] = [1] * len(body[0]["ins"])
+    F = {"params": params, "names": names, "out": "TS[int]", "stmts": body, "ret": ret}
+    n = draw(st.sampled_from([0, 0, 0, 1, 2, 4]))
+    cap = (n - 1) if n else (70 if draw(st.integers(0, 14)) == 0 else (24 if big else 10))
+    script, top = [], -1
+    for t in draw(gen.time_set(start, end - 1, 1, 12 if big else 7)):
+        ops, used = [], set()
+        for _ in range(draw(st.integers(1, 3))):
+            # mostly: an existing index or the next one; sometimes a jump that leaves holes
+            hi = cap if n else min(cap, top + draw(st.sampled_from([1, 1, 1, 2, 3, 9])))
+            i = draw(st.integers(0, max(0, hi)))
+            if i in used:
+                continue
+            used.add(i)
+            top = max(top, i)
+            ops.append({"k": "i", "i": i, "op": {"k": "set", "v": draw(st.integers(-3, 30))}})
+        script.append([t, ops])
+    b_script = draw(gen.int_script(start, end - 1, max_size=5)) if use_b else None
+    # passive(b) only for the dynamic list (a node with children, as for dictionaries); a fixed-size list map is unrolled and
+    # the marker then applies to each copy's own input, which the property says nothing about
+    b_passive = use_b and n == 0 and draw(st.integers(0, 2)) == 0
+    return {"kind": "tsl", "start": start, "end": end, "F": F, "n": n, "use_key": use_key, "use_b": use_b, "b_passive": b_passive,
+            "script": script, "b_script": b_script, "flags": sorted(flags)}
+
+
 def strategy(tier):
-    return st.one_of(case(tier), case(tier), case(tier), nested_case(tier))
+    return st.one_of(case(tier), case(tier), case(tier), nested_case(tier), tsl_case(tier))
 
 
 def norm_dd(d):
@@ -240,6 +286,112 @@ def check_nested(case, ctx) -> Result:
     return res
 
 
+def check_tsl(case, ctx) -> Result:
+    res = Result()
+    start, end, F, n = case["start"], case["end"], case["F"], case["n"]
+    # per index: appearance time (fixed list: the start; dynamic list: the cycle in which the list grew past it) and ticks
+    xs, appear, length = {}, {}, n
+    if n:
+        appear = {i: start for i in range(n)}
+    for t, ops in case["script"]:
+        for op in ops:
+            xs.setdefault(op["i"], []).append((t, op["op"]["v"]))
+            if not n and op["i"] >= length:
+                for j in range(length, op["i"] + 1):
+                    appear[j] = t
+                length = op["i"] + 1
+    args = [{"fn": "F"}, {"ts": "d"}] + ([{"ts": {"r": "bsrc", "passive": True} if case.get("b_passive") else "bsrc"}] if case["use_b"] else [])
+    stmts = [{"id": "d", "op": "src", "schema": f"TSL[TS[int],{n}]", "script": case["script"]}]
+    if case["use_b"]:
+        stmts.append({"id": "bsrc", "op": "src", "schema": "TS[int]", "script": case["b_script"]})
+    stmts += [{"id": "m", "op": "op", "name": "map_", "args": args, "has_out": True},
+              {"id": "rec", "op": "node", "ins": ["m"], "deep": True, "valid": []}]
+    resp = ctx.run({"start": start, "end": end, "stmts": stmts, "subs": {"F": F}})
+    if resp.get("crash"):
+        res.violations.append(Viol("engine_crash", f"list map_ run: worker died {resp.get('signal')} {resp.get('stderr', '')[-500:]}"))
+        return res
+    if not resp.get("built"):
+        raise Rejected(f"C10 generator produced a list-map program the tree rejects: {resp.get('error')}")
+    feats = {"list_map": "fixed" if n else "dynamic", "use_key": case["use_key"], "use_b": case["use_b"], "flags": ",".join(case["flags"])}
+    if resp.get("error"):
+        res.violations.append(Viol("run_failed", f"list map_ run threw: {resp['error']}", feats))
+        return res
+    b_ticks = [(t, ops[-1]["v"]) for t, ops in (case["b_script"] or [])]
+    solo, idxs = [], sorted(appear)
+    for i in idxs:
+        ta = appear[i]
+        ins = []
+        if case["use_key"]:
+            solo.append({"id": f"k{i}", "op": "src", "schema": "TS[int]", "script": [[ta, [{"k": "set", "v": i}]]]})
+            ins.append(f"k{i}")
+        solo.append({"id": f"x{i}", "op": "src", "schema": "TS[int]", "script": [[t, [{"k": "set", "v": v}]] for t, v in xs.get(i, [])]})
+        ins.append(f"x{i}")
+        if case["use_b"]:
+            cur = [v for t, v in b_ticks if t <= ta]
+            sc = ([[ta, [{"k": "set", "v": cur[-1]}]]] if cur else []) + [[t, [{"k": "set", "v": v}]] for t, v in b_ticks if ta < t < end]
+            solo.append({"id": f"b{i}", "op": "src", "schema": "TS[int]", "script": sc})
+            ins.append(f"b{i}")
+        solo.append({"id": f"f{i}", "op": "inline", "sub": "F", "ins": ins})
+        solo.append({"id": f"r{i}", "op": "node", "ins": [f"f{i}"]})
+    exp = {}
+    if idxs:
+        sresp = ctx.run({"start": start, "end": end, "stmts": solo, "subs": {"F": F}})
+        if sresp.get("crash") or not sresp.get("built") or sresp.get("error"):
+            raise HarnessError(f"C10 list-map solo program failed: {sresp.get('error') or sresp.get('signal')}")
+        st_ = Trace(sresp["trace"])
+        for i in idxs:
+            exp[i] = [(t, v) for (t, v, _) in st_.stream(f"r{i}")]
+    got, last_len = {}, 0
+    for d in Trace(resp["trace"]).evals_of("rec", "r"):
+        inp = d["ins"][0]
+        ch = inp.get("ch") or []
+        last_len = max(last_len, len(ch))
+        if not inp["m"]:
+            continue
+        for i, c in enumerate(ch):
+            if c.get("m"):
+                got.setdefault(i, []).append((d["t"], c.get("val")))
+    for i in sorted(set(exp) | set(got)):
+        e, g = exp.get(i, []), got.get(i, [])
+        if e != g:
+            clause = "key_tick_missing" if len(g) < len(e) and g == e[:len(g)] else "key_stream_value_differs" if len(g) == len(e) else "key_tick_unexpected" if len(g) > len(e) else "key_stream_value_differs"
+            res.violations.append(Viol(clause, f"list map_ ({'fixed ' + str(n) if n else 'dynamic'}): output element {i} ticked {g[:12]}, running F alone on element {i}'s stream {xs.get(i, [])[:12]} (appeared at {appear.get(i)}) gives {e[:12]}", feats))
+            break
+    starts = sum(1 for e in resp["trace"] if e[0] == "gs" and isinstance(e[1], str) and e[1].count("/") == 1)
+    stops = 0
+    for e in resp["trace"]:
+        if e[0] == "phase" and e[1] == "run_returned":
+            break
+        if e[0] == "gp" and isinstance(e[1], str) and e[1].count("/") == 1:
+            stops += 1
+    if not n:
+        if starts != len(idxs):
+            res.violations.append(Viol("child_start_count", f"{starts} child graphs were started for a dynamic list that grew to {len(idxs)} elements", feats))
+        if stops != starts:
+            res.violations.append(Viol("child_stop_count", f"{starts} child graphs started but only {stops} had been stopped when run() returned", feats))
+    holes = [i for i in idxs if i not in xs]
+    late = [i for i in idxs if i in xs and xs[i][0][0] > appear[i]]
+    res.nontrivial = (not n and bool(holes or late) and bool(case["flags"])) or len(idxs) >= 9
+    res.labels.append("list_map_fixed" if n else "list_map_dynamic")
+    if holes:
+        res.labels.append("list_hole_never_written")
+    if late:
+        res.labels.append("list_hole_written_later")
+    if len(idxs) >= 9:
+        res.labels.append("nine_plus_live")
+    if len(idxs) >= 65:
+        res.labels.append("sixty_five_plus_live")
+    res.labels += case["flags"]
+    if case["use_key"]:
+        res.labels.append("key_consuming")
+    if case["use_b"]:
+        res.labels.append("broadcast")
+    if case.get("b_passive"):
+        res.labels.append("passive_broadcast")
+    res.summary = {"indices": len(idxs), "holes": holes[:8], "flags": case["flags"]}
+    return res
+
+
 def lifetimes(script, end):
     """[(key, t_appear, t_remove_or_None, [(t, value)...])] from the net effect of each scripted cycle."""
     m = tm.M(("TSD", "int", ("TS", "int")))
@@ -269,6 +421,8 @@ def lifetimes(script, end):
 def check(case, ctx) -> Result:
     if case.get("kind") == "nested":
         return check_nested(case, ctx)
+    if case.get("kind") == "tsl":
+        return check_tsl(case, ctx)
     res = Result()
     start, end = case["start"], case["end"]
     F = case["F"]
